@@ -315,6 +315,48 @@ fn g_tables(_src: &mut Src, obs: &mut Obs) -> CaseResult {
             return Err(Fail::new(format!("C18:{}:variant-spellings", name), format!("{} variants spell {:?}, specification says {:?}", name, got, want), json!({})));
         }
     }
+    // every listed sub-command maps through complete requests, under every command byte that carries it
+    for n in PIN_SUBS {
+        obs.sub_evals += 1;
+        let msg = [0x06u8, 0xA2, 0x01, 0x01, 0x02, n as u8];
+        let got: Result<(Option<Vec<u8>>, String), u8> = match ctap_types::ctap2::Request::deserialize(&msg) {
+            Ok(ctap_types::ctap2::Request::ClientPin(r)) => Ok((ser(&r.sub_command).ok(), format!("{:?}", r.sub_command))),
+            Ok(other) => Ok((None, format!("{:?}", other))),
+            Err(e) => Err(e as u8),
+        };
+        if !matches!(&got, Ok((Some(b), _)) if b[..] == [n as u8]) {
+            return Err(Fail::new(
+                format!("C18:PinV1Subcommand:through-request:{}", n),
+                format!("clientPIN request with sub-command {} decoded to {:?}", n, got),
+                json!({"input_hex": hex(&msg)}),
+            ));
+        }
+    }
+    for cmd in [0x0Au8, 0x41] {
+        for n in 1..=7u8 {
+            obs.sub_evals += 1;
+            let msg = [cmd, 0xA1, 0x01, n];
+            let got: Result<(Option<Vec<u8>>, String), u8> = match ctap_types::ctap2::Request::deserialize(&msg) {
+                Ok(ctap_types::ctap2::Request::CredentialManagement(r)) => Ok((ser(&r.sub_command).ok(), format!("{:?}", r.sub_command))),
+                Ok(other) => Ok((None, format!("{:?}", other))),
+                Err(e) => Err(e as u8),
+            };
+            if !matches!(&got, Ok((Some(b), _)) if b[..] == [n]) {
+                return Err(Fail::new(
+                    format!("C18:Subcommand:through-request:0x{:02x}:{}", cmd, n),
+                    format!("credential management request 0x{:02x} with sub-command {} decoded to {:?}", cmd, n, got),
+                    json!({"input_hex": hex(&msg)}),
+                ));
+            }
+        }
+        for n in [0u8, 8, 9, 23] {
+            obs.sub_evals += 1;
+            let msg = [cmd, 0xA1, 0x01, n];
+            if ctap_types::ctap2::Request::deserialize(&msg).is_ok() {
+                return Err(Fail::new(format!("C18:Subcommand:through-request:accepted:{}", n), format!("credential management sub-command {} accepted under 0x{:02x}", n, cmd), json!({"input_hex": hex(&msg)})));
+            }
+        }
+    }
     // numeric discriminants of the variants
     let pins = [
         (PinV1Subcommand::GetRetries, 1u8),
